@@ -67,26 +67,33 @@ Fixpoint find_field (k : string) (fs : list ifdef) : option ifdef :=
   | f :: r => if String.eqb k (i_name f) then Some f else find_field k r
   end.
 
-(* `while name in used_names: name += "_"` (fix bec4417).  The loop runs at most |used| times; the fuel is
-   |used|+1 and Proofs/FreshP.v shows the result is not in `used`, i.e. the fuel is never what stops it. *)
+(* `while name in used_names or (name != org_name and name in definition.fields): name += "_"`
+   (fixes bec4417, a4347c6).  The loop condition is membership in `blocked`: the names already given plus the
+   GraphQL names of the OTHER fields (Proofs/FreshP.v blocked_spec).  The loop runs at most |blocked| times; the
+   fuel is |blocked|+1 and FreshP shows the result is outside `blocked`, i.e. the fuel is never what stops it. *)
 Fixpoint fresh (n : nat) (name : string) (used : list string) : string :=
   match n with
   | 0 => name
   | S n' => if mem name used then fresh n' (name ++ "_") used else name
   end.
 
-(* the Python names of the fields of one input type, in definition order (GraphQL name -> Python name) *)
-Fixpoint assign_names (snake : bool) (used : list string) (fs : list ifdef) : list (string * string) :=
+Definition blocked (org : string) (used names : list string) : list string :=
+  used ++ filter (fun x => negb (x =? org)) names.
+
+(* the Python names of the fields of one input type, in definition order (GraphQL name -> Python name);
+   names = the GraphQL names of all fields of the type (the keys of definition.fields) *)
+Fixpoint assign_names (snake : bool) (names used : list string) (fs : list ifdef) : list (string * string) :=
   match fs with
   | [] => []
   | f :: r =>
-      let n := fresh (S (List.length used)) (py_name snake (i_name f)) used in
-      (i_name f, n) :: assign_names snake (n :: used) r
+      let b := blocked (i_name f) used names in
+      let n := fresh (S (List.length b)) (py_name snake (i_name f)) b in
+      (i_name f, n) :: assign_names snake names (n :: used) r
   end.
 
 (* definition.fields is a dict: GraphQL field names are unique, so the name of a field is found by its key *)
 Definition fname (snake : bool) (fs : list ifdef) (org : string) : string :=
-  match lookup org (assign_names snake [] fs) with Some n => n | None => py_name snake org end.
+  match lookup org (assign_names snake (map i_name fs) [] fs) with Some n => n | None => py_name snake org end.
 
 (* coerce_default_value_node(node, type) (fix e1f804e): the literal is given the shape of its type — a single value
    for a list type becomes a one-item list, an Int literal for ID a string — through object literals too *)
@@ -159,20 +166,15 @@ Definition used_enums (s : schema) (cs : customs) : list string :=
                                       (map (field_type_name s cs) fs)
                      | _ => [] end) s.
 
-(* ---- what is left of finding F18 inside one input type after fix bec4417: Python names are distinct by
-   construction now; the remaining hazard is populate_by_name reading the value of ANOTHER field, i.e. the final
-   Python name of one field being the GraphQL name of a different field.  (The last conjunct, GraphQL names
-   unique, is schema validity, not a finding.) ---- *)
-Fixpoint names_ok_go (snake : bool) (all fs : list ifdef) : bool :=
+(* ---- nothing is left of finding F18 inside one input type after fixes bec4417 / a4347c6: Python names are
+   distinct and never the GraphQL name of another field, by construction (Proofs/FreshP.v).  What the theorems
+   still assume is schema validity: the GraphQL field names of one input type are unique (graphql-core keeps
+   them in a dict). ---- *)
+Fixpoint names_ok_fields (snake : bool) (fs : list ifdef) : bool :=
   match fs with
   | [] => true
-  | f :: r =>
-      forallb (fun g => negb (fname snake all (i_name f) =? i_name g)
-                        && negb (fname snake all (i_name g) =? i_name f)
-                        && negb (i_name f =? i_name g)) r
-      && names_ok_go snake all r
+  | f :: r => forallb (fun g => negb (i_name f =? i_name g)) r && names_ok_fields snake r
   end.
-Definition names_ok_fields (snake : bool) (fs : list ifdef) : bool := names_ok_go snake fs fs.
 
 (* ---- construction by Python field name: the same value keyed by the generated field names ---- *)
 Definition rename_entry (ren : gtype -> json -> json) (snake : bool) (fs : list ifdef) (p : string * json)
